@@ -1,17 +1,28 @@
 #!/bin/sh
-# Build the framework from files on disk only (offline): all Coq theories and the Rust harness.
+# Build the framework from files on disk only (offline): the Coq theories of every registered
+# check and the Rust harness binaries they use.  (Files of checks that are not registered in
+# MANIFEST.json are not built here.)
 set -e
 cd "$(dirname "$0")"
 export CARGO_NET_OFFLINE=true
 python3 - <<'PY'
-import sys
+import importlib, json, sys
 sys.path.insert(0, ".")
 from vlib import core
-rc, out, dt = core.coq_make(None, timeout=5400)
+man = json.load(open("MANIFEST.json"))
+ids = [c["property_id"] for c in man["checks"]]
+targets, bins = [], []
+for pid in ids:
+    m = importlib.import_module("checks." + pid.lower()).META
+    targets.append("Props/%s.vo" % pid)
+    for b in m.get("bins", []):
+        if b not in bins:
+            bins.append(b)
+rc, out, dt = core.coq_make(targets, timeout=5400)
 print(out[-3000:])
-print("coq build rc=%d in %.0fs" % (rc, dt))
+print("coq build of %s: rc=%d in %.0fs" % (targets, rc, dt))
 if rc != 0:
     sys.exit(1)
-dt = core.build_harness(timeout=5400)
-print("harness build in %.0fs" % dt)
+dt = core.build_harness(bins=bins or ["ping"], timeout=5400)
+print("harness build (%s) in %.0fs" % (bins, dt))
 PY
